@@ -58,11 +58,12 @@ Section Bisim.
   Variable all2 : list (m_st M2).
   Hypothesis all2_complete : forall s, validb s = true -> In s all2.
   Variable f : m_st M2 -> outcome (m_st M1).   (* the implementation state matching a spec state *)
+  Variable exc : m_st M2 -> Inp -> bool.       (* cells (spec state, input) whose OUTPUT is excepted *)
 
   Definition step_ok (s2 : m_st M2) (s1 : m_st M1) (i : Inp) : bool :=
     match m_step M2 s2 i, m_step M1 s1 i with
     | Ret (s2', o2), Ret (s1', o1) =>
-        oeqb o1 o2 && validb s2' &&
+        (exc s2 i || oeqb o1 o2) && validb s2' &&
         match f s2' with Ret s1'' => eqb1 s1' s1'' | Panic => false end
     | _, _ => false
     end.
@@ -93,7 +94,7 @@ Section Bisim.
           let '(path, s2, s1) := x in
           match m_step M2 s2 i, m_step M1 s1 i with
           | Ret (s2', o2), Ret (s1', o1) =>
-              if oeqb o1 o2 then
+              if exc s2 i || oeqb o1 o2 then
                 if match f s2' with Ret s1'' => eqb1 s1' s1'' | Panic => false end
                 then inr [] else inr [(i :: path, s2', s1')]
               else inl (Some (i :: path))
@@ -115,21 +116,30 @@ Section Bisim.
     | Ret s1 =>
         match m_step M2 s2 i, m_step M1 s1 i with
         | Ret (s2', o2), Ret (s1', o1) =>
-            if oeqb o1 o2 then option_map (@rev Inp) (find_mismatch fuel [([i], s2', s1')]) else Some [i]
+            if exc s2 i || oeqb o1 o2 then option_map (@rev Inp) (find_mismatch fuel [([i], s2', s1')]) else Some [i]
         | Ret _, Panic => Some [i]
         | Panic, _ => None
         end
     | Panic => Some []
     end.
 
-  Theorem bisim : closedb = true ->
+  (* the two machines run in lock step on [is]; at every position whose cell is not excepted the
+     outputs are equal; neither panics *)
+  Fixpoint agree (s2 : m_st M2) (s1 : m_st M1) (is : list Inp) : Prop :=
+    match is with
+    | [] => True
+    | i :: rest =>
+        exists s2' o2 s1' o1,
+          m_step M2 s2 i = Ret (s2', o2) /\ m_step M1 s1 i = Ret (s1', o1) /\
+          (exc s2 i = false -> o1 = o2) /\ agree s2' s1' rest
+    end.
+
+  Theorem bisim_exc : closedb = true ->
     forall is, Forall (fun i => In i all_in) is ->
-    forall s2 s1, validb s2 = true -> f s2 = Ret s1 ->
-    exists s2' s1' os, run M2 s2 is = Ret (s2', os) /\ run M1 s1 is = Ret (s1', os) /\
-                       validb s2' = true /\ f s2' = Ret s1'.
+    forall s2 s1, validb s2 = true -> f s2 = Ret s1 -> agree s2 s1 is.
   Proof.
     intros Hc is Hall. induction Hall as [|i is Hi Hall IH]; intros s2 s1 Hv Hf.
-    - exists s2, s1, []. simpl. auto.
+    - exact I.
     - unfold closedb in Hc. rewrite forallb_forall in Hc.
       pose proof (Hc s2 (all2_complete s2 Hv)) as Hs. unfold closed_at in Hs. rewrite Hf in Hs.
       rewrite forallb_forall in Hs. specialize (Hs i Hi). unfold step_ok in Hs.
@@ -137,19 +147,33 @@ Section Bisim.
       destruct (m_step M1 s1 i) as [[s1' o1]|] eqn:E1'; [|discriminate].
       apply andb_prop in Hs as [Hs Hf']. apply andb_prop in Hs as [Ho Hv'].
       destruct (f s2') as [s1''|] eqn:Ef; [|discriminate].
-      apply (reflect_eq_true (eqb_spec_pf (f:=eqb1) _ _)) in Hf'.
-      apply (reflect_eq_true (eqb_spec_pf (f:=oeqb) _ _)) in Ho. subst s1'' o2.
-      destruct (IH s2' s1' Hv' Ef) as (t2 & t1 & os & R2 & R1 & Hv2 & Hf2).
+      apply (reflect_eq_true (eqb_spec_pf (f:=eqb1) _ _)) in Hf'. subst s1''.
+      cbn [agree]. exists s2', o2, s1', o1.
+      split; [exact E2|]. split; [exact E1'|]. split.
+      + intros Hx. rewrite Hx in Ho. simpl in Ho.
+        exact (reflect_eq_true (eqb_spec_pf (f:=oeqb) _ _) Ho).
+      + apply IH; assumption.
+  Qed.
+
+  Lemma agree_runs : (forall s i, exc s i = false) ->
+    forall is s2 s1, agree s2 s1 is ->
+    exists s2' s1' os, run M2 s2 is = Ret (s2', os) /\ run M1 s1 is = Ret (s1', os).
+  Proof.
+    intros Hx. induction is as [|i is IH]; intros s2 s1 H.
+    - exists s2, s1, []. simpl. auto.
+    - simpl in H. destruct H as (s2' & o2 & s1' & o1 & E2 & E1' & Ho & Hr).
+      specialize (Ho (Hx _ _)). subst o2.
+      destruct (IH _ _ Hr) as (t2 & t1 & os & R2 & R1).
       exists t2, t1, (o1 :: os). simpl. rewrite E2, E1', R2, R1. auto.
   Qed.
 
-  Corollary bisim_outs : closedb = true ->
+  Corollary bisim_outs : (forall s i, exc s i = false) -> closedb = true ->
     forall is, Forall (fun i => In i all_in) is ->
     forall s2 s1, validb s2 = true -> f s2 = Ret s1 ->
     outs M1 s1 is = outs M2 s2 is /\ outs M1 s1 is <> Panic.
   Proof.
-    intros Hc is Hall s2 s1 Hv Hf.
-    destruct (bisim Hc is Hall s2 s1 Hv Hf) as (t2 & t1 & os & R2 & R1 & _).
+    intros Hx Hc is Hall s2 s1 Hv Hf.
+    destruct (agree_runs Hx is s2 s1 (bisim_exc Hc is Hall s2 s1 Hv Hf)) as (t2 & t1 & os & R2 & R1).
     unfold outs. rewrite R1, R2. simpl. split; [reflexivity | discriminate].
   Qed.
 End Bisim.
